@@ -10,8 +10,8 @@ structure LIInv (p : Loc × Ids) : Prop where
   ids : IdsInv p.2
   len : p.2.live.length = p.1.lOff + p.1.cur
 
-theorem liInv_init (N : Nat) : LIInv (Loc.init N, Ids.init) :=
-  ⟨locInv_init N, idsInv_init, by simp [Loc.init, Ids.init]⟩
+theorem liInv_init (N : Nat) (P : Id → Bool) : LIInv (Loc.init N, Ids.init P) :=
+  ⟨locInv_init N, idsInv_init P, by simp [Loc.init, Ids.init]⟩
 
 /-- shape of the locals machine after each event, given the invariant (no crash branch is taken) -/
 theorem shape_addLocal (l : Loc) (id : Id) (p : Bool) (s0 : Int) (h : LocInv l) (hnf : ¬ l.N ≤ l.max) :
@@ -71,6 +71,39 @@ theorem shape_leaveLit_nil (l : Loc) (d : Nat) (h : LocInv l) (hd : l.frames.dro
   simp only [stepLoc, h.notBad, Bool.false_eq_true, if_false, hd]
 
 
+/-- state after free_unused_identifiers: dirty list processed, non-permanent identifiers freed -/
+theorem cleanup_final (s : Ids) (h : IdsInv s) (hlive : s.live = [])
+    (hperm : ∀ j, s.perm j = true → ∀ k, s.bnd k j = -1) :
+    IdsInv (freeNonPerm { s with dirty := [] }) := by
+  have hall : ∀ j k, (freeNonPerm { s with dirty := [] }).bnd k j = -1 := by
+    intro j k
+    simp only [freeNonPerm]
+    by_cases hp : s.perm j = true
+    · simp only [hp, if_true]; exact hperm j hp k
+    · simp [hp]
+  have hbs : ∀ j, (freeNonPerm { s with dirty := [] }).bsum j = 0 := fun j => bsum_eq_zero.mpr (hall j)
+  refine ⟨h.notBad, ?_, ?_, ?_⟩
+  · intro j
+    rw [hbs j]
+    show (if s.perm j then s.refs j else 0) = ((s.live.count j : Nat) : Int) + 0
+    have := h.refs j
+    rw [hlive] at this ⊢
+    by_cases hp : s.perm j = true
+    · have hz : s.bsum j = 0 := bsum_eq_zero.mpr (hperm j hp)
+      simp only [hp, if_true]; simp at this ⊢; omega
+    · simp [hp]
+  · intro j hj
+    have : s.lnum j ≠ -1 := by
+      intro hc
+      apply hj
+      simp only [freeNonPerm]
+      split <;> simp_all
+    have := h.act j this
+    rw [hlive] at this
+    simp at this
+  · intro j _ hne
+    exact absurd (hbs j) hne
+
 theorem stepLI_inv (p : Loc × Ids) (e : Ev) (h : LIInv p) : LIInv (stepLI p e) := by
   obtain ⟨l, s⟩ := p
   have hL := h.loc; have hI := h.ids; have hlen := h.len
@@ -90,9 +123,10 @@ theorem stepLI_inv (p : Loc × Ids) (e : Ev) (h : LIInv p) : LIInv (stepLI p e) 
       exact ⟨hI, hlen⟩
     · rw [shape_addLocal l id p s0 hL hf]
       simp only [stepIds, hb, hsb, Bool.false_eq_true, or_self, if_false, hf]
-      refine ⟨⟨rfl, ?_, ?_⟩, by simp; omega⟩
+      refine ⟨⟨rfl, ?_, ?_, hI.dirtyOk⟩, by simp; omega⟩
       · intro j
         have := hI.refs j
+        show upd s.refs id (s.refs id + 1) j = ((id :: s.live).count j : Int) + s.bsum j
         by_cases hj : j = id
         · subst hj; simp only [upd, if_true, List.count_cons_self]; omega
         · have hne : (id == j) = false := by simp; exact fun h => hj h.symm
@@ -115,8 +149,28 @@ theorem stepLI_inv (p : Loc × Ids) (e : Ev) (h : LIInv p) : LIInv (stepLI p e) 
   | cleanup =>
     rw [shape_cleanup l hL]
     simp only [stepIds, hb, hsb, Bool.false_eq_true, or_self, if_false]
-    have := popMany_inv (l.lOff + l.cur) s hI (by omega)
-    exact ⟨this.1, by rw [this.2]; first | omega | (simp; omega)⟩
+    have h1 := popMany_inv (l.lOff + l.cur) s hI (by omega)
+    have hlive : (popMany (l.lOff + l.cur) s).live = [] := List.eq_nil_of_length_eq_zero (by rw [h1.2]; omega)
+    obtain ⟨h2, l2, d2, p2, c2, m2⟩ := clearAll_inv (popMany (l.lOff + l.cur) s).dirty _ h1.1
+    have hperm : ∀ j, (clearAll (popMany (l.lOff + l.cur) s).dirty (popMany (l.lOff + l.cur) s)).perm j = true →
+        ∀ k, (clearAll (popMany (l.lOff + l.cur) s).dirty (popMany (l.lOff + l.cur) s)).bnd k j = -1 := by
+      -- every permanent identifier is fully cleared: it was on the dirty list or had no binding
+      intro j hp k
+      by_cases hd : j ∈ (popMany (l.lOff + l.cur) s).dirty
+      · exact c2 j hd k
+      · have hz : (popMany (l.lOff + l.cur) s).bsum j = 0 := by
+          by_cases hz : (popMany (l.lOff + l.cur) s).bsum j = 0
+          · exact hz
+          · exact absurd (h1.1.dirtyOk j (by rw [← p2]; exact hp) hz) hd
+        exact m2 k j (bsum_eq_zero.mp hz k)
+    exact ⟨cleanup_final _ h2 (by rw [l2, hlive]) hperm, by simp [freeNonPerm, l2, hlive]⟩
+  | bind k id perm n sem0 =>
+    have hsh : (stepLoc l (.bind k id perm n sem0)).1 = l := by simp only [stepLoc, hb, Bool.false_eq_true, if_false]
+    rw [hsh]
+    simp only [stepIds, hb, hsb, Bool.false_eq_true, or_self, if_false]
+    have := bind_inv s k id n (if perm = true ∧ ¬s.perms.contains id = true then s.perms ++ [id] else s.perms) hI
+    rw [hsb] at this
+    exact ⟨this, hlen⟩
   | enterLit =>
     have hsh := shape_enterLit l hL
     simp only [stepIds, hb, hb', hsb, Bool.false_eq_true, or_self, if_false]
@@ -151,6 +205,21 @@ theorem stepLI_inv (p : Loc × Ids) (e : Ev) (h : LIInv p) : LIInv (stepLI p e) 
   | _ =>
     simp only [stepLoc, hb, stepIds, hsb, Bool.false_eq_true, or_self, if_false]
     exact ⟨hI, hlen⟩
+
+/-- what free_unused_identifiers leaves: an empty dirty list, and no binding on any freed (non-permanent) identifier -/
+theorem cleanup_post (p : Loc × Ids) (h : LIInv p) :
+    (stepLI p .cleanup).2.dirty = [] ∧
+    ∀ j, (stepLI p .cleanup).2.perm j = false → ∀ k, (stepLI p .cleanup).2.bnd k j = -1 := by
+  obtain ⟨l, s⟩ := p
+  have hL := h.loc; have hI := h.ids
+  simp only at hL hI
+  have hb := hL.notBad; have hsb := hI.notBad
+  have hb' := (stepLoc_inv l .cleanup hL).1.notBad
+  simp only [stepLI, stepIds, hb, hb', hsb, Bool.false_eq_true, or_self, if_false]
+  refine ⟨rfl, ?_⟩
+  intro j hp k
+  simp only [freeNonPerm] at hp ⊢
+  simp [hp]
 
 theorem runLI_inv : ∀ (evs : List Ev) (p : Loc × Ids), LIInv p → LIInv (runLI p evs)
   | [], _, h => h
